@@ -235,3 +235,58 @@ func (r *run) explore(in In, cap int) error {
 	}
 	return nil
 }
+
+// planStep: run `Task` until it has issued a statement of kind `Upto` (or to completion when empty).
+type planStep struct {
+	Task string
+	Upto string
+}
+
+// directed runs the scenario once under its seed to learn every task's statement sequence, then
+// once more under the schedule described by the plan (valid when no statement has to wait:
+// every unfinished task is ready at every decision).
+func (r *run) directed(in In, plan []planStep) error {
+	first, err := r.exec(in)
+	if err != nil || first.Err != "" || r.Done() {
+		return err
+	}
+	seq := map[string][]string{}
+	for _, e := range first.Events {
+		if e.Res != "blocked" {
+			seq[e.Task] = append(seq[e.Task], e.Stmt)
+		}
+	}
+	tasks := []string{}
+	for _, q := range in.Reqs {
+		tasks = append(tasks, q.Task)
+	}
+	sort.Strings(tasks)
+	pos := map[string]int{}
+	var choices []int
+	for _, st := range plan {
+		for pos[st.Task] < len(seq[st.Task]) {
+			idx, k := -1, 0
+			for _, t := range tasks {
+				if pos[t] < len(seq[t]) {
+					if t == st.Task {
+						idx = k
+					}
+					k++
+				}
+			}
+			if idx < 0 {
+				break
+			}
+			choices = append(choices, idx)
+			issued := seq[st.Task][pos[st.Task]]
+			pos[st.Task]++
+			if st.Upto != "" && issued == st.Upto {
+				break
+			}
+		}
+	}
+	cs := in
+	cs.Choices = choices
+	_, err = r.exec(cs)
+	return err
+}
